@@ -63,8 +63,12 @@ class Creators:
           "The identifier of a line must be a string\n"+
           "Line: {}\n".format(str(gfa_line))+
           "Identifier: {}".format(repr(key)))
-      elif key.isdigit():
-        keynum = int(key)
+      elif key.isascii() and key.isdigit():
+        try:
+          keynum = int(key)
+        except ValueError:
+          # longer than the maximum length of integer strings
+          keynum = 0
         if keynum > self._max_int_name:
           self._max_int_name = keynum
       self._records[gfa_line.record_type][key] = gfa_line
